@@ -397,6 +397,14 @@ func init() {
 				s.N = d.Pick(1500, 60000)
 				specs = append(specs, s)
 			}
+			// the same sampled sequences under the race detector: Refresh/Destroy/log calls come from one goroutine, but the
+			// asynchronous logger's worker runs beside them
+			for i := 0; i < int(d.Pick(2, 6)); i++ {
+				s := d.NewSpec("sampled", fmt.Sprintf("smp-race-%d", i), 300+i, 16)
+				s.N = d.Pick(400, 6000)
+				s.Flavour = "race"
+				specs = append(specs, s)
+			}
 			// fresh processes
 			FL := int(d.Pick(2, 3))
 			var seqs [][]string
@@ -420,7 +428,8 @@ func init() {
 				s.TimeoutS = 120
 				specs = append(specs, s)
 			}
-			d.RunWorkers(specs, 16)
+			outs := d.RunWorkers(specs, 16)
+			d.raceVerdict(outs)
 			d.Extra["exhaustive"] = true
 			d.Extra["exhaustive_spaces"] = []string{fmt.Sprintf("all op sequences of length 1..%d (in-process)", d.Pick(5, 6)), fmt.Sprintf("all op sequences of length 1..%d (fresh process each)", FL)}
 			d.Extra["fresh_process_sequences"] = len(seqs)
